@@ -108,8 +108,19 @@ def api_table(paths, argvopts, name, axis, thresholds, bin_type, agg, acc):
 def run_case(ctx, rng, ci, names):
     import numpy as np
     F = rng.choice([1, 2, 2, 3])
-    ds = gen.make_dataset(rng, n_inputs=F, prob=True, ens=False, pit=True, miss=rng.choice([0.0, 0.1]), sparse=0.0,
-                          thresholds=[0.0, 5.0, 10.0], quantiles=[0.25, 0.5, 0.75], max_t=4, max_l=4, max_s=3, vrange=(0, 14))
+    precise = rng.random() < 0.4
+    pool = gen.LOC_POOL
+    if precise:
+        # station ids and coordinates with more than six significant digits (text files keep them exactly)
+        gen.LOC_POOL = [[1234567, 49.123456, -123.456789, 1034.5678], [1234568, 49.123457, -123.45679, 2.25], [20001234, 60.000001, 10.5, 100.0],
+                        [7, 70.0, -20.0, 1200.5], [1234569, -33.987654, 151.123456, 12.0]]
+    try:
+        ds = gen.make_dataset(rng, n_inputs=F, prob=True, ens=False, pit=True, miss=rng.choice([0.0, 0.1]), sparse=0.0,
+                              thresholds=[0.0, 5.0, 10.0], quantiles=[0.25, 0.5, 0.75], max_t=4, max_l=4, max_s=3, vrange=(0, 14),
+                              fmt=("text" if precise else None),
+                              leadtime_pool=([0, 6, 12, 101325.5, 24, 1.5] if precise else None))
+    finally:
+        gen.LOC_POOL = pool
     d = os.path.join(ctx.workdir, "c%d" % ci)
     os.makedirs(d, exist_ok=True)
     paths, _ = gen.materialize(ds, d, None)
@@ -280,7 +291,8 @@ def run_case(ctx, rng, ci, names):
                         ok = g == w
                     else:
                         try:
-                            ok = vutil.num_equal(float(g), float(w), 1e-5, 1e-9)
+                            # csv prints the value itself; the text format prints %g (6 significant digits)
+                            ok = vutil.num_equal(float(g), float(w), 1e-12 if otype == "csv" else 1e-5, 1e-9)
                         except ValueError:
                             ok = False
                     if not ok:
